@@ -112,8 +112,8 @@ func checkC17(c *Ctx) error {
 	c.Programs = 5
 	c.Bounds["front_ends"] = "checked-in peg.peg.go and four front ends regenerated from peg.peg (default, -inline, -switch, -inline -switch) with the peg built from the working tree"
 	c.Bounds["texts"] = fmt.Sprintf("valid header + rule body of K arbitrary characters, and K arbitrary characters inside a two-rule grammar; K <= %d", K)
-	c.Bounds["reduced_claim"] = "NOT covered: byte-for-byte reproduction of peg.peg.go by the bootstrap chain (a closed concrete computation, no input to quantify over); shipped example grammars (covered as F-real in C13 thorough)"
+	c.Bounds["reduced_claim"] = "NOT covered: byte-for-byte reproduction of peg.peg.go by the bootstrap chain (a closed concrete computation, no input to quantify over)"
 	c.Assumptions = append(c.Assumptions, "A-SSA", "A-SMT", "same token list => same Execute action sequence => same builder calls => same tree (checked directly as well); the emitter is a function of the tree")
 	c.Process(res, func(*Job) *NativeRunner { return runner })
-	return nil
+	return runRealDiff(c)
 }
